@@ -42,7 +42,9 @@ def gen_cases(ctx):
         if a:
             rows.append(ginv(a))      # pairs whose logs sum to exactly 65535
     if thorough:
-        rows = list(range(65536))
+        # the model is compared on 4096 whole rows (65536 products each); ALL 65536 rows (every pair of the 2^32) are
+        # compared in the harness with the specification computed there bit by bit (op rowspec below)
+        rows = rows + [rng.randrange(65536) for _ in range(4096)]
     seen = set()
     for a in rows:
         if a in seen:
@@ -106,6 +108,8 @@ def judge(case, impl, model):
     op = w[1]
     if impl.startswith("CRASH") or impl == "NORESULT":
         return "harness died: " + impl
+    if model.startswith("CRASH") or model == "NORESULT" or not m:
+        return "the extracted model did not answer (%s)" % model[:60]
     if op in ("times", "times_row", "pow", "ptimes", "div_row"):
         if impl != m[1]:
             return "implementation %s differs from the specification value %s" % (impl, m[1])
@@ -164,11 +168,28 @@ def run(ctx):
     vh = ctx.build_harness()
     if ctx.replay:
         cases = json.load(open(ctx.replay))["cases"]
+        for c_ in [c for c in cases if c.startswith("c08 rowspec")]:
+            r_ = ctx.run_lines(vh, [c_], shards=1)[0]
+            print(c_, "->", r_)
+            if r_ != "ok":
+                ctx.violation("%s: %s" % (c_, r_), {"cases": [c_], "impl": r_, "class": {"op": "rowspec"}})
+        cases = [c for c in cases if not c.startswith("c08 rowspec")]
     else:
         cases = gen_cases(ctx)
     impl = ctx.run_lines(vh, cases)
     mod = ctx.run_lines(model, cases)
     dist = {}
+    exhaustive_pairs = 0
+    if ctx.tier == "thorough" and not ctx.replay:
+        rs = ["c08 rowspec %d" % a for a in range(65536)]
+        rr = ctx.run_lines(vh, rs)
+        for c_, r_ in zip(rs, rr):
+            ctx.count(c_, True)
+            exhaustive_pairs += 65536
+            if r_ != "ok":
+                ctx.violation("%s: %s (specification computed in the harness, all 65536 partners)" % (c_, r_),
+                              {"cases": [c_], "impl": r_, "class": {"op": "rowspec"}})
+                break
     products = 0
     reported = 0
     for c, i, m in zip(cases, impl, mod):
@@ -188,6 +209,6 @@ def run(ctx):
     return ctx.finish(
         "proof",
         rule="cases from the seeded generator (all 65536 inverses; full rows of Times/Div for structured+random constants and their inverses; individual products/quotients; Pow over exponent classes; structured/random 64-bit polynomials); a row counts as one case; non-trivial = no operand is 0 or 1",
-        extra={"input_distribution": dist, "products_checked": products,
+        extra={"input_distribution": dist, "products_checked": products, "pairs_checked_against_harness_spec": exhaustive_pairs,
                "compared": "implementation value vs (a) extracted implementation model T_Times/T_Div/T_Inverse/T_Pow/Poly64_* and (b) extracted specification fmul/fpow/clmul"},
         exhaustive=(ctx.tier == "thorough"))
